@@ -57,6 +57,11 @@ def ops(t):
         'announce-500': lambda ts: [R('TRACE_STRING_GLOBAL', 3, tid=t, ts=ts, data=B.global_string_chunks(0, 500, '/usr/lib/libz')[0][0])],
         'terminate-7': lambda ts: [R('TRACE_DATA_THREAD_TERMINATE', 0, (7, 0, 0, 0), t, ts)],
         'terminate-self': lambda ts: [R('TRACE_DATA_THREAD_TERMINATE', 0, (t, 0, 0, 0), t, ts)],
+        # decodable records of the sampler's thread subclass (0x2501) other than the thread-data record, and of the mach class, between
+        # the two halves of a declaration
+        'cswitch': lambda ts: [R('PERF_THD_CSwitch', 0, (t, 10, 0, 0), t, ts)],
+        'exec-rename-with-a-mach-record-between': lambda ts: [R('TRACE_DATA_EXEC', 0, (PIDOF[t], 0, 0, 0), t, ts), R('MACH_WAIT', 0, (0x10, 0, 0, 0), t, ts + 1),
+                                                              R('TRACE_STRING_EXEC', 0, (0, 0, 0, 0), t, ts + 2, data=b'Z1'.ljust(32, b'\0'))],
         'name-self': lambda ts: [R('TRACE_STRING_THREADNAME', 0, tid=t, ts=ts, data=b'worker'.ljust(32, b'\0'))],
         'newthread-pair': lambda ts: [R('TRACE_DATA_NEWTHREAD', 0, (7, 70, 0, 0), t, ts), R('TRACE_STRING_NEWTHREAD', 0, tid=t, ts=ts + 1, data=b'my kid'.ljust(32, b'\0'))],     # a name with a blank
         'getpid@7': lambda ts: [R('BSC_getpid', 1, tid=7, ts=ts), R('BSC_getpid', 2, (0, 5, 0, 0), 7, ts + 1)],
@@ -74,7 +79,7 @@ CORE_OPS = ['open+lookup', 'getpid', 'reply_port', 'trace-exec', 'lone-lookup', 
 # operations through which one thread's traces depend on another thread's records
 CROSS_ALPHABET = [('announce-500', 1), ('announce-500', 2), ('dlopen-500', 1), ('dlopen-500', 2), ('newthread-pair', 1), ('newthread-pair', 2),
                   ('getpid@7', 1), ('exec-rename', 1), ('getpid', 1), ('getpid', 2), ('open+lookup', 2), ('terminate-7', 1),
-                  ('terminate-self', 1), ('terminate-self', 2)]       # a thread goes on emitting records after its own terminate record
+                  ('terminate-self', 1), ('terminate-self', 2), ('cswitch', 1), ('exec-rename-with-a-mach-record-between', 1)]       # a thread goes on emitting records after its own terminate record
 
 
 DISPLAY_OFF = [False]     # set while the cross-thread commutation is repeated with the process / thread / timestamp columns switched off
